@@ -72,12 +72,42 @@ def chunkcfg_check(rng, n):
     return None, len(scripts), div
 
 
+def filtered_jobs_run(rng, n, only=None):
+    """jobs with a chunk filter of their own (extraChunkFilterCheck rejects odd version chunks) next to version-checked readers
+    of what they write: a rejected chunk is neither processed nor stamped. Not in the Manager model: implementation output only"""
+    import os, emcmp
+    prof = mgr.profile(PROP)
+    prof['verchunk'] = [1, 2, 3]
+    prof['jobs'] = [{'reqs': [(0, 0)], 'check': [], 'xodd': True}, {'reqs': [(0, 1)], 'check': [0]}, {'reqs': [(0, 0), (1, 2)], 'check': [1], 'xodd': True},
+                    {'reqs': [(1, 1)], 'check': [1]}, {'reqs': [(0, 1), (1, 1)], 'check': [0, 1]}]
+    prof['weights'] = dict(prof['weights'], jobdo=0, runtyped=0, lockedrun=0, create=30, runjob=34)
+    scripts = only or [('x%d' % i, mgr.gen_script(rng.fork('c11x-%d' % i), 70, prof)) for i in range(n)]
+    drv, err = vlib.build_driver('em_driver')
+    if err:
+        return [dict(script=scripts[0][0], opn=0, op='build', aspect='build', what=str(err))], scripts
+    io, _ = emcmp.run_driver(drv, emcmp.scripts_text(scripts), os.path.join(vlib.BUILD, 'work', PROP + '-x'), timeout=1200)
+    impl = emcmp.parse(io)
+    fails = [dict(script=n_, opn=i, op=b['op'], aspect='crash', what='implementation crashed: ' + b['crash']) for n_, bl in impl for i, b in enumerate(bl) if b['crash']]
+    return fails + jobcheck.tier_a_jobs(impl, scripts, JOB_ASPECTS | {'visits'}), scripts
+
+
 def run(tier, seed, replay=None):
     rng = vlib.Rng(seed)
+    rl = [l.rstrip('\n') for l in open(replay) if l.strip() and not l.startswith('#')] if replay else []
+    only_x = any(l.startswith('mkjob 3') or l.startswith('mkjob 2') for l in rl)
+    if only_x or not replay:
+        fx, xs = filtered_jobs_run(rng, 60 if tier == 'quick' else 1200, [('replay', rl)] if only_x else None)
+        if fx or only_x:
+            cov = {'rule': 'jobs with a chunk filter of their own, implementation only', 'evaluations': len(xs), 'distinct_nontrivial': len(xs)}
+            if not fx:
+                return {'violations': [], 'coverage': cov, 'level': 'proof'}
+            f = fx[0]
+            p = vlib.write_replay(PROP, 'failing_script.txt', '# %s: %s\n# at op %d (%s) of script %s\n%s\n' % (f['aspect'], f['what'], f['opn'], f['op'], f['script'], '\n'.join(dict(xs)[f['script']])))
+            return {'violations': [(p, '')], 'coverage': cov, 'level': 'proof'}
     n, maxops = (200, 80) if tier == 'quick' else (3000, 300)
     prof = mgr.profile(PROP)
     scripts = mgr.corpus(PROP) + [('g%d' % i, mgr.gen_script(rng.fork(PROP + '-%d' % i), maxops, prof)) for i in range(n)]
-    res = mgrcheck.run_check(PROP, scripts, ASPECTS, replay=replay, assumptions=['component payloads are modelled as one integer per instance', 'user callbacks only read what they are handed', 'extraArchetypeFilterCheck / extraChunkFilterCheck are the defaults'],
+    res = mgrcheck.run_check(PROP, scripts, ASPECTS, replay=replay, assumptions=['component payloads are modelled as one integer per instance', 'user callbacks only read what they are handed', 'extraArchetypeFilterCheck / extraChunkFilterCheck are the defaults in the model; jobs with a chunk filter of their own are judged on the implementation output only'],
                               extra_tier_a=lambda impl, sc: jobcheck.tier_a_jobs(impl, sc, JOB_ASPECTS))
     if replay or res['violations']:
         return res
